@@ -72,7 +72,9 @@ def kwargs(state):
     if fam == "EHEP":
         kw.setdefault("xmax", 10.0); kw.setdefault("tmax", 10.0)
     if fam.startswith("Riemann"):
-        kw.setdefault("xmin", 0.0); kw.setdefault("xmax", 1.0)
+        # [xmin, xmax] (the general-EOS solver tabulates the solution there and nowhere else) contains the window of request()
+        x0, t_ = kw.get("xd0", 0.5), abs(E.qf(state["t"]))
+        kw.setdefault("xmin", min(0.0, x0 - 1.8 * t_ - 0.05)); kw.setdefault("xmax", max(1.0, x0 + 2.0 * t_ + 0.05))
     return kw
 
 
